@@ -388,11 +388,13 @@ class PreferenceProfile:
             return False
         pp_1 = self.condense_ballots()
         pp_2 = other.condense_ballots()
+        # Ballot.__eq__ is asymmetric (scores=None on the left matches any scores),
+        # so membership must hold in both directions
         for b in pp_1.ballots:
-            if b not in pp_2.ballots:
+            if not any(b == c and c == b for c in pp_2.ballots):
                 return False
         for b in pp_2.ballots:
-            if b not in pp_1.ballots:
+            if not any(b == c and c == b for c in pp_1.ballots):
                 return False
         return True
 
